@@ -3,7 +3,7 @@
 # check of its property; one line per seed: CAUGHT / MISSED / DOES-NOT-APPLY.
 tier="${1:-quick}"; want="$2"
 cd /verif
-for d in seeded/*/; do
+for d in /verif/seeded/*/; do
   id=$(basename "$d")
   case "$id" in "$want"*) ;; *) continue;; esac
   [ -f "$d/meta.json" ] || continue
